@@ -2,7 +2,7 @@
 import json
 
 from mirsym import engine
-from . import geomrules as GR
+from . import geomrules as GR, staterules as SR
 
 LEVEL = 'other'
 EXPLANATION = ('Per-step lemma from the MIR, decided by z3 over the reals: Vertex::from_dual measures radius^2 = |gen - P_d(loc)|^2 in the active '
@@ -19,6 +19,8 @@ def check(run):
     GR.from_dual(run, funcs, 'C16')
     GR.far_plane_lemma(run, funcs, 'C16')
     GR.build_loop(run, funcs, 'C16')
+    GR.build_loop_multi(run, funcs, 'C16')
+    SR.all_transitions(run, funcs, 'C16')       # the radius survives clone / with_faces / discard_faces / VoronoiIntegrator::with_faces
     GR.update_safety_radius(run, funcs, 'C16', 3 if run.tier == 'quick' else 4)
     run.assume('f64 read as exact reals (a bit-precise Kani version of update_safety_radius did not finish in 700 s: CBMC sqrt model)')
     run.assume('history quantifier (adding far generators leaves the cell unchanged) = composition of this lemma with the visiting order (C17): not a query')
@@ -27,4 +29,6 @@ def check(run):
 
 def replay(path):
     d = json.load(open(path))
+    if d['kind'] in SR.NATIVE:
+        return SR.replay(d)
     return GR.replay(d)
